@@ -450,7 +450,7 @@ func seqWorker(w *pool.W, arg json.RawMessage) {
 // ---- middleware stacks -----------------------------------------------------------------
 
 type mwShard struct {
-	Stacks [][]int `json:"stacks"` // priorities in registration order
+	Stacks [][]int `json:"stacks"`          // priorities in registration order
 	Kinds  bool    `json:"kinds,omitempty"` // also every non-zero closure / class-instance mask
 }
 
@@ -810,9 +810,9 @@ func main() {
 	}
 	c.Set("stacks_with_class_instance_entries", nkind)
 	// configuration histories (history.go)
-	hb := histBound{MaxLen: 5, MaxObj: 3, NPrio: 2, NForm: 3, MaxKind: 1}
+	hb := histBound{MaxLen: 5, MaxObj: 3, NPrio: 2, NForm: 3, MaxKind: 1, Serve: true}
 	if !c.Quick() {
-		hb = histBound{MaxLen: 6, MaxObj: 3, NPrio: 3, NForm: 4, MaxKind: 1}
+		hb = histBound{MaxLen: 6, MaxObj: 3, NPrio: 3, NForm: 4, MaxKind: 1, Serve: true}
 	}
 	staticDir, derr := makeStaticDir()
 	if derr != nil {
@@ -899,7 +899,7 @@ func replay(c *ev.Check) {
 		if derr != nil {
 			c.HarnessError("static dir: %v", derr)
 		}
-		cl, detail, _ := histClause(cs.Hist, dir)
+		cl, detail, _, _ := histClause(cs.Hist, dir)
 		os.RemoveAll(dir)
 		fmt.Printf("history %s\n%s\n%s\n", histString(cs.Hist), histScript(cs.Hist, dir), detail)
 		if cl != "" {
